@@ -537,11 +537,26 @@ impl MatrixModel {
     }
 }
 
+/// file names that are not valid UTF-8 (any byte string is a file name on this platform) in the odd-names pass
+static ODD_NAMES: std::sync::atomic::AtomicBool = std::sync::atomic::AtomicBool::new(false);
+
 fn matrix_paths(root: &Path) -> [PathBuf; 2] {
+    if ODD_NAMES.load(Ordering::Relaxed) {
+        use std::os::unix::ffi::OsStrExt;
+        let name = std::ffi::OsStr::from_bytes(b"db-\xff\xfe.sqlite");
+        return [root.join("d").join(name), root.join("a").join("b").join(name)];
+    }
     [root.join("d").join("db.sqlite"), root.join("a").join("b").join("db.sqlite")]
 }
 
-fn matrix_init(init: FileInit, root: &Path, svc: &str) -> MatrixModel {
+pub fn matrix_odd_names(rep: &mut Report, depth: usize) {
+    ODD_NAMES.store(true, Ordering::Relaxed);
+    matrix(rep, depth, 0o022);
+    matrix(rep, 1, 0o027);
+    ODD_NAMES.store(false, Ordering::Relaxed);
+}
+
+fn matrix_init(init: FileInit, root: &Path, svc: &str) -> Result<MatrixModel, String> {
     let paths = matrix_paths(root);
     let p = &paths[0];
     let mut model = MatrixModel { files: vec![MFile::Missing, MFile::Missing], ring: [false, false] };
@@ -569,14 +584,15 @@ fn matrix_init(init: FileInit, root: &Path, svc: &str) -> MatrixModel {
                 FileInit::EncCaller0 => Ctor::WithKey(0),
                 _ => Ctor::New(0),
             };
-            let s = open(c, p, svc).expect("matrix init");
+            // (a constructor that refuses a missing path is a finding of its own, reported by the caller)
+            let s = open(c, p, svc).map_err(|e| format!("{c:?} on missing|{e}"))?;
             write_marker(&s, 9);
             drop(s);
             let _ = model.open(c, 0);
             model.add_marker(0, format!("{CANARY_NAME}9"));
         }
     }
-    model
+    Ok(model)
 }
 
 fn scan_for(root: &Path, needles: &[(String, Vec<u8>)]) -> Vec<String> {
@@ -633,13 +649,30 @@ pub fn matrix(rep: &mut Report, depth: usize, umask: u32) {
                 let _ = std::fs::remove_dir_all(&root);
                 std::fs::create_dir_all(&root).unwrap();
                 let svc = format!("msvc-{}-{n}", std::process::id());
-                let mut model = matrix_init(*init, &root, &svc);
+                let mut model = match matrix_init(*init, &root, &svc) {
+                    Ok(m) => m,
+                    Err(e) => {
+                        findings.lock().unwrap().push((format!("C13|matrix|refused-but-must-open|{e}"), format!("preparing the {init:?} file state: the constructor failed on a missing path ({e})"), json!({"init": format!("{init:?}")})));
+                        let _ = std::fs::remove_dir_all(&root);
+                        continue;
+                    }
+                };
                 let paths = matrix_paths(&root);
                 // in the 027 pass a database file that exists beforehand is group/world readable (restored with cp, say):
                 // the first successful open must leave it owner-only
                 let lax_existing = umask == 0o027 && !matches!(init, FileInit::Missing);
                 if lax_existing {
                     let _ = std::fs::set_permissions(&paths[0], std::fs::Permissions::from_mode(0o644));
+                    // ... and so are left-over sidecar files next to it (whichever of them survive the open must end owner-only)
+                    for ext in ["-wal", "-shm", "-journal"] {
+                        let mut n = paths[0].as_os_str().to_os_string();
+                        n.push(ext);
+                        let side = PathBuf::from(n);
+                        if !side.exists() {
+                            let _ = std::fs::write(&side, b"");
+                        }
+                        let _ = std::fs::set_permissions(&side, std::fs::Permissions::from_mode(0o644));
+                    }
                 }
                 let mut opened_ok = [!lax_existing, true];
                 let mut ring_bytes: [Option<Vec<u8>>; 2] = [keyring_key(&svc, 0), keyring_key(&svc, 1)];
